@@ -18,6 +18,8 @@ Layers
   c15.lle.hist.de / .shgo   depth 2, both comparisons
   c15.sle.grid       depth 1: (solute, solvents, amounts, ideal) x (T, given | computed solubility)
   c15.sle.hist       depth 3: sequences of (solvent set, T, given | computed) calls on ONE stream
+  c15.sle.feed       depth 2: calls on ONE stream with the feed edited in between (solute total up / down, solvent set and amounts)
+  c15.lle.hist.nu.de depth 3: histories that contain `update=False` calls
 
 Reference model: my own evaluation of x_i * gamma_i per phase with `thermo.Gamma` over the whole
 package (not the solver's sub-list), my own mass fractions, the feed vector I put in, and
@@ -205,7 +207,11 @@ def _call_lle(s, T, top, uc, ctx):
     g = _load()
     n0 = _COUNT['solve']
     try:
-        s.lle(T, top_chemical=top, use_cache=uc)
+        if uc == 'nu':
+            # documented option: only asks for (chemicals, K, phi); flows, T, P are not to be updated
+            s.lle(T, top_chemical=top, update=False)
+        else:
+            s.lle(T, top_chemical=top, use_cache=uc)
     except g['NoEquilibrium'] as e:
         raise Rejected('NoEquilibrium', cut=True)
     except RuntimeError as e:
@@ -426,7 +432,8 @@ HIST_T = (320.0, 300.0, 340.0)
 
 
 class LLEHist(System):
-    """config = (method, family, top);  action = (composition index, T index, use_cache)"""
+    """config = (method, family, top, flags, nC, nT);  action = (composition index, T index, use_cache | 'nu');
+    'nu' = the call is made with update=False (history only)"""
     state_cap = 2_000_000
 
     def __init__(self, name, method, families_q, families_t, depth_q, depth_t, nT=3, nC=3, flags_q=(True,), flags_t=(True, False),
@@ -509,8 +516,14 @@ class LLEHist(System):
         two = _two_phase(l, L, F)
         st.info = dict(two_phase=two, warm=hid is not None and hid[3] is not None, reused=not solved)
         obs = ('2ph' if two else '1ph', 'reused' if not solved else 'solved', dT, dz)
+        if uc == 'nu':
+            # an `update=False` call is part of the history only (the property states nothing about what it returns); what it
+            # leaves in the solver is judged by the calls that follow
+            st.info = dict(two_phase=False, warm=False, reused=not solved)
+            return ('update=False', 'reused' if not solved else 'solved', dT, dz)
         if key in _CHECKED: return obs
-        cls = dict(method=method, use_cache=uc, reused=not solved, dT=dT, dz=dz, top=top is not None)
+        after_nu = any(b[2] == 'nu' for b in prefix)
+        cls = dict(method=method, use_cache=uc, reused=not solved, dT=dT, dz=dz, top=top is not None, after_update_false=after_nu)
         # equal activity after a history follows from the grid layer (which contains every (composition, T) of the history
         # alphabets on a fresh stream) plus history-vs-fresh; it is not re-raised here because it would cut every history
         _check_split(feed, l, L, T, method, top, dict(history=prefix, call=a), skip_activity=True)
@@ -536,14 +549,14 @@ class LLEHist(System):
                                 f'{METHODS[method]}: after history {prefix} the call (feed={list(comp)}, T={T}, top={top}) with use_cache=True gives '
                                 f'l={l.tolist()} L={L.tolist()}, with use_cache=False l={l2.tolist()} L={L2.tolist()} (distance {d:.3g} of the feed); '
                                 f'previous call: dT={dT}, composition {dz}, coefficients reused={not solved}',
-                                match=dict(method=method, reused=not solved, dT=dT, dz=dz, top=top is not None), residual=d)
+                                match=dict(method=method, reused=not solved, dT=dT, dz=dz, top=top is not None, after_update_false=after_nu), residual=d)
             if do_fresh and not isinstance(fresh[0], str):
                 d2, _ = _split_distance(l2, L2, fresh[0], fresh[1], F, swap_ok_for((l2, L2), fresh))
                 if d2 > tol_f:
                     raise Violation('history-vs-fresh',
                                     f'{METHODS[method]}: after history {prefix} the call (feed={list(comp)}, T={T}, top={top}, use_cache=False) gives '
                                     f'l={l2.tolist()} L={L2.tolist()}; a fresh stream gives l={fresh[0].tolist()} L={fresh[1].tolist()} (distance {d2:.3g})',
-                                    match=dict(method=method, use_cache=False, reused=False, dT=dT, dz=dz, top=top is not None), residual=d2)
+                                    match=dict(method=method, use_cache=False, reused=False, dT=dT, dz=dz, top=top is not None, after_update_false=after_nu), residual=d2)
         if not do_fresh:
             if len(_CHECKED) > 400000: _CHECKED.clear()
             _CHECKED.add(key)
@@ -630,7 +643,9 @@ def _sle_call(st, solute, T, given):
     _COUNT['sle_x'] = None; _COUNT['sle_iter'] = 0
     sle0 = s._sle_cache.value
     # classification only: the solver object enters the call with the whole-package slice a given-solubility call left in `_index`
-    ctx['index_left_by_given_call'] = bool(sle0 is not None and isinstance(getattr(sle0, '_index', None), slice))
+    # ... and would reuse it (the remembered set of present chemicals was not invalidated)
+    ctx['index_left_by_given_call'] = bool(sle0 is not None and isinstance(getattr(sle0, '_index', None), slice)
+                                           and getattr(sle0, '_nonzero', None) is not None)
     try:
         if given is None: s.sle(solute, T=T)
         else: s.sle(solute, T=T, solubility=given)
@@ -818,6 +833,57 @@ class SLEHist(SLEBase):
         return repr((st.config[0], st.config[3], a[0], a[2] is None, obs, _sle_hidden(st.s)[:3]))
 
 
+class SLEFeed(SLEBase):
+    """Histories in which the FEED is edited between calls: action = (solvent set index, amount pattern, solute total, T, given | None).
+    The solvent amounts and the solute total are set (solute all in the liquid), then sle is called.  The solute total moves up and
+    down between calls while the set of chemicals present may stay the same."""
+    name = 'c15.sle.feed'
+    def depth(self, tier): return 2
+    def _sets(self, tier): return ((), (0,), (0, 1)) if tier == 'quick' else ((), (0,), (1,), (0, 1, 2))
+    def _pats(self, tier): return ('a',) if tier == 'quick' else ('a', 'b')
+    def _amts(self, tier): return (30.0, 5.0) if tier == 'quick' else (30.0, 5.0, 60.0)
+    def _given(self, tier): return (0.2,) if tier == 'quick' else (0.05, 0.6)
+    def _Ts(self, sol, tier):
+        Tm = dict(Tetradecanol=312.65, AceticAcid=289.85, Glucose=419.15)[sol]
+        return (Tm - 12.0, Tm + 10.0) if tier == 'quick' else (Tm - 30.0, Tm - 5.0, Tm + 10.0)
+    def describe(self, tier):
+        return dict(solvent_sets=[list(x) for x in self._sets(tier)], solvent_patterns=list(self._pats(tier)),
+                    solute_totals=list(self._amts(tier)), given=list(self._given(tier)))
+    def configs(self, tier, seed):
+        out = [(sol, (0,), 'a', ideal, tier) for sol in SOLUTES for ideal in (0, 1)]
+        k = seed % len(out)
+        return out[k:] + out[:k]
+    def build(self, config):
+        return self._build(config, config[1], config[2], 30.0, 0.0)
+    def actions(self, st):
+        sol, _, _, _, tier = st.config
+        sets = self._sets(tier)
+        acts = []
+        for si in range(len(sets)):
+            for pat in (self._pats(tier) if sets[si] else ('a',)):
+                for amt in self._amts(tier):
+                    for T in self._Ts(sol, tier):
+                        acts.append((si, pat, amt, T, None))
+                        if sets[si]:
+                            for x in self._given(tier): acts.append((si, pat, amt, T, x))
+        return acts
+    def step(self, st, a):
+        sol, _, _, _, tier = st.config
+        si, pat, amt, T, given = a
+        ss = self._sets(tier)[si]
+        s = st.s
+        for i, ID in enumerate(SOLVENTS):
+            s.imol['l', ID] = SOLV_AMT[pat][i] if i in ss else 0.0
+        s.imol['s', sol] = 0.0
+        s.imol['l', sol] = amt
+        st.info = _sle_call(st, sol, T, given)
+        st.hist.append(a)
+        i = st.info
+        return ('pure:' + str(i.get('rule')) if i.get('pure') else ('split' if i.get('split') else 'one-phase'))
+    def outcome(self, st, a, obs):
+        return repr((st.config[0], st.config[3], a[0], a[2], a[4] is None, obs))
+
+
 SYSTEMS = [
     LLEGrid('c15.lle.grid.pe', 'pe', 'labels+scale'),
     LLEGrid('c15.lle.act.pe', 'pe', 'activity'),
@@ -829,9 +895,13 @@ SYSTEMS = [
     LLEHist('c15.lle.hist5.pe', 'pe', ('WOE',), ('WOE',), 4, 5, nC=2, flags_q=(True,), flags_t=(True,), mode='reuse', tops_q=('Octanol',)),
     # C: histories that mix calls with and without reuse, and families whose chemical set changes
     LLEHist('c15.lle.hist.uc.pe', 'pe', ('SET',), ('WOE', 'SET', 'WBH', 'WA'), 3, 3, flags_q=(True, False), flags_t=(True, False), mode='reuse', tops_q=('Octanol',)),
-    LLEHist('c15.lle.fresh.pe', 'pe', ('WOE', 'SET'), ('WOE', 'SET', 'WBH', 'WA'), 3, 3, flags_q=(True, False), mode='fresh'),
-    LLEHist('c15.lle.hist.de', 'de', ('WOE',), ('WOE', 'WA'), 2, 2, nT=2, nC=2, nT_t=3, nC_t=3, flags_q=(True,), flags_t=(True,)),
+    LLEHist('c15.lle.fresh.pe', 'pe', ('WOE', 'SET'), ('WOE', 'SET', 'WBH', 'WA'), 3, 3, flags_q=(True,), mode='fresh'),
+    LLEHist('c15.lle.hist.de', 'de', ('WA',), ('WOE', 'WA'), 2, 2, nT=2, nC=2, nT_t=3, nC_t=3, flags_q=(True,), flags_t=(True,)),
+    # histories that contain `update=False` calls (optimiser method: the default method cannot show a reuse defect, see report)
+    LLEHist('c15.lle.hist.nu.de', 'de', ('WA',), ('WA', 'WOE'), 3, 3, nT=2, nC=1, flags_q=(True, 'nu'), flags_t=(True, 'nu'),
+            tops=(None, 'Octanol'), tops_q=(None,)),
     LLEHist('c15.lle.hist.shgo', 'shgo', ('WOE',), ('WOE',), 2, 2, nT=2, nC=1, nT_t=2, nC_t=2, flags_q=(True,), flags_t=(True,), tops=(None,)),
     SLEGrid(),
     SLEHist(),
+    SLEFeed(),
 ]
